@@ -13,6 +13,8 @@ Terms are nested tuples `(op, ...)`:
   ("not", t) ("and"|"or", ts) ("phi", cond, a, b) ("isinstance", t, names) ("binop", op, a, b) ("fstr", parts) ("funcref", fi)
   ("classref", fq) ("bound", obj, fi) ("lambda", fi) ("global", dotted) ("builtin", name) ("any", gens) ("disj", alternatives) ("unknown", why)
   ("attrgetter", dotted)   -- `operator.attrgetter("a")`; `map` / `filter` / a call apply it like a lambda
+  ("methodcaller", name, args, kwargs)   -- `operator.methodcaller("m", ..)`; applied to a term it is the method call `x.m(..)`, resolved on
+                                           the class of a constructed receiver or on the classes recorded for the receiver term
   ("partial", callable term, args, kwargs)   -- `functools.partial(f, ..)` of a followed callable; a call prepends the bound arguments
 
 Library calls with an exact meaning are normalised: `[*xs]` is `list(xs)`, `chain.from_iterable(xss)` / `chain(*xss)` / `sum(xss, [])` are the flattening generator / list
@@ -50,7 +52,7 @@ BUILTIN_NAMES = {
 }
 
 
-CALLABLE_TERMS = ("lambda", "funcref", "classref", "bound", "attrgetter", "partial")
+CALLABLE_TERMS = ("lambda", "funcref", "classref", "bound", "attrgetter", "partial", "methodcaller")
 OPERATOR_FUNCTIONS = {"not_": 1, "truth": 1, "getitem": 2, "contains": 2, "eq": 2, "ne": 2, "is_": 2, "is_not": 2}
 MAPPABLE_BUILTINS = ("bool", "len", "list", "tuple", "set", "frozenset", "sorted", "str")
 
@@ -773,6 +775,8 @@ class SymExec:
                 return self.construct(fterm[1], args, kws, starred, call, st, fr)
             elif fterm[0] == "attrgetter" and len(args) == 1 and not kws and not starred:
                 return self.apply(fterm, args, st, fr, call)
+            elif fterm[0] == "methodcaller" and len(args) == 1 and not kws and not starred:
+                return self.call_method(args[0], fterm[1], list(fterm[2]), dict(fterm[3]), st, fr, call)
         if target is None and not starred and fterm is None:
             try:
                 cs, how = self.T.callees(fr.ctx, call, byname_fallback=False)
@@ -822,8 +826,46 @@ class SymExec:
         self.emit("call", st, call, fr, recv=None, method=ft, args=a)
         return ("call", ft, a)
 
+    def call_method(self, recv: Term, name: str, args: list, kws: dict, st: State, fr: Frame, call: ast.Call) -> Term:
+        """`recv.name(*args, **kws)` for a receiver *term* (no receiver expression to type): `methodcaller(name, ..)(recv)`.  The
+        method is looked up in the heap, on the class of a constructed receiver, or on the classes recorded for the term."""
+        target: FuncInfo | None = None
+        if (recv, name) in st.heap and is_callable_term(st.heap[(recv, name)]):
+            return self.apply(st.heap[(recv, name)], args, st, fr, call) if not kws else ("call", st.heap[(recv, name)], tuple(args))
+        candidates: list[FuncInfo] = []
+        if recv[0] in ("obj", "new"):
+            ci = self.repo.classes.get(recv[1])
+            m = self.repo.lookup_method(ci, name) if ci else None
+            candidates = [m] if m is not None else []
+        elif recv[0] == "classref":
+            ci = self.repo.classes.get(recv[1])
+            m = self.repo.lookup_method(ci, name) if ci else None
+            if m is not None and (m.is_classmethod or m.is_staticmethod):
+                candidates = [m]
+        else:
+            for fq in self.classes_of(recv):
+                ci = self.repo.classes.get(fq)
+                for m in self.repo.implementations(ci, name) if ci is not None else ():
+                    if m not in candidates:
+                        candidates.append(m)
+        concrete = [m for m in candidates if not m.is_abstract and not m.is_property]
+        if len(concrete) == 1:
+            target = concrete[0]
+            try:
+                return self.interpret(target, self.bind(target, recv, False, args, kws, None, fr), st)
+            except _Opaque:
+                pass
+        if concrete:
+            self.emit("opaque", st, call, fr, targets=tuple(t.fq for t in concrete))
+        a = tuple(args) + tuple(("kw", k, v) for k, v in kws.items())
+        if name not in PURE_METHODS:
+            self.emit("call", st, call, fr, recv=recv, method=name, args=a)
+        return ("mcall", recv, name, a)
+
     def library(self, fq: str, args: list, kws: dict) -> Term | None:
         """Standard-library callables with an exact meaning in terms: `attrgetter("a")`, `islice(xs, n)`, `chain.from_iterable(xss)`."""
+        if fq == "operator.methodcaller" and args and args[0][0] == "const" and isinstance(args[0][1], str):
+            return ("methodcaller", args[0][1], tuple(args[1:]), tuple(sorted(kws.items())))
         if fq == "functools.partial" and args and is_callable_term(args[0]):
             return ("partial", args[0], tuple(args[1:]), tuple(sorted(kws.items())))
         if kws:
@@ -1011,6 +1053,10 @@ class SymExec:
             if fterm[1] not in MAPPABLE_BUILTINS or len(args) != 1:
                 raise _Opaque
             return self.builtin(fterm[1], tuple(args), (), st, fr, call)
+        if fterm[0] == "methodcaller":
+            if len(args) != 1:
+                raise _Opaque
+            return self.call_method(args[0], fterm[1], list(fterm[2]), dict(fterm[3]), st, fr, call)
         if fterm[0] == "attrgetter":
             vals = []
             for dotted in fterm[1:]:
@@ -1341,6 +1387,8 @@ def show(t, depth: int = 0) -> str:
         return f"<?{t[1]}>"
     if op == "attrgetter":
         return f"attrgetter({', '.join(repr(x) for x in t[1:])})"
+    if op == "methodcaller":
+        return f"methodcaller({', '.join([repr(t[1])] + [r(x) for x in t[2]] + [f'{k}={r(v)}' for k, v in t[3]])})"
     if op == "partial":
         return f"partial({', '.join([r(t[1])] + [r(x) for x in t[2]] + [f'{k}={r(v)}' for k, v in t[3]])})"
     return op + "(" + ", ".join(r(x) if is_term(x) else repr(x) for x in t[1:]) + ")"
